@@ -111,9 +111,16 @@ def _short(ev):
 
 
 def exec_one(job):
-    """Replay one recorded run (op list) and report everything about it."""
+    """Replay one recorded run (op list) - or a recorded sequence of runs executed in one world, the last of
+    which is judged - and report everything about it."""
     prop = job['prop']
-    res = exec_run(prop, job['run'])
+    runs = job.get('runs') or [job['run']]
+    for r in runs[:-1]:
+        try:
+            exec_run(prop, r)
+        except Exception:
+            pass
+    res = exec_run(prop, runs[-1])
     mine = [dict(v) for v in res.violations if v['prop'] == prop]
     return {'digest': res.log_digest(), 'violations': mine, 'sigs': sorted({Violation_sig(v) for v in mine}),
             'events': res.events, 'all_violations': [dict(v) for v in res.violations]}
@@ -192,3 +199,22 @@ def shrink(job):
     if hasattr(eng, 'shrink_args'):
         cur = eng.shrink_args(cur, lambda r: fails(r) is not None, lambda: tries < budget)
     return {'ok': True, 'run': cur, 'tries': tries}
+
+
+def world_prefix(job):
+    """A violation that does not recur when its run is replayed alone may depend on state that earlier runs of
+    the same world (process) left behind - a cache, a class-level attribute.  Re-execute the batch prefix and,
+    if the signature recurs, shrink the list of earlier runs by deletion (ddmin over runs)."""
+    prop, tier, seed, sig = job['prop'], job['tier'], job['seed'], job['sig']
+    start, idx = job['start'], job['idx']
+    runs = [gen_run(prop, tier, seed, i) for i in range(start, idx + 1)]
+
+    # NOTE: every trial must run in a world whose global state is that of a fresh interpreter, so trials are
+    # executed in *sub-processes* by the driver; here we only do the first, full-prefix confirmation.
+    out = exec_one({'prop': prop, 'runs': runs})
+    return {'recurs': sig in out['sigs'], 'runs': runs, 'result': out}
+
+
+def world_trial(job):
+    out = exec_one({'prop': job['prop'], 'runs': job['runs']})
+    return {'recurs': job['sig'] in out['sigs'], 'result': out}
